@@ -25,6 +25,7 @@ def jobs(tier):
         mk('C01', 'par/shared_child', S.par_shared_child()),
         mk('C01', 'flood/small_history', S.flood_idle()),
         mk('C01', 'flood_retry_rejected', S.flood_retry_rejected()),
+        mk('C01', 'flood_order', S.flood_order()),
         mk('C01', 'expects_then_late_handler', S.expects_then_late_handler()),
         mk('C01', 'samefn/AB', S.samefn(('A', 'B'))),
         mk('C01', 'samefn/BA', S.samefn(('B', 'A'))),
